@@ -241,6 +241,10 @@ def transform(ctx, case):
                                      "calls": dict(calls), "n": n, "checklines": ck})
                 return
             kept = [i for i in range(n) if plan[i] in ("keep", "modify")]
+            if any(not hasattr(f, "attributes") for f in out):
+                ctx.violation(case, {"why": "a false transform result was yielded instead of being skipped", "form": form,
+                                     "yielded": [repr(f)[:40] for f in out], "plan": plan})
+                return
             got = [int(f.attributes["lineno"][0]) for f in out]
             if got != kept:
                 ctx.violation(case, {"why": "skipped features are not exactly those mapped to a false value", "form": form,
